@@ -4,7 +4,8 @@ PX (pristine processes) + a statement pool built to share cache keys (vf/props/_
 
 A HISTORY is one db_session:  s1 [m1] s2 [m2 s3]  - statements from the pool, optionally separated by an
 in-session modification (assign / create / delete / commit / rollback). Enumerated exhaustively:
-    quick     all ordered pairs (a, b) with a or b in the 20-statement core  x  {no modification, 5 modifications}
+    quick     all ordered pairs (a, b) with a or b in the 20-statement core  x  {no modification, assign, create, delete}
+              (+ commit, rollback when both are core statements)
     thorough  all ordered pairs over the whole pool x 6, and all ordered triples over the core x 6 x 6
 plus two long histories (whole pool forward / backward) that run inside one pristine process each.
 
@@ -276,12 +277,18 @@ def modseqs(maxlen):
     for n in range(1, maxlen + 1): out += list(itertools.product(MODS6[1:], repeat=n))
     return out
 
+MODS4 = (None, 'assign', 'create', 'delete')
+def pair_mods(a, b, quick):
+    """quick tier: commit / rollback between the two statements only when both are core statements"""
+    if not quick or (P.POOL[a].core and P.POOL[b].core): return MODS6
+    return MODS4
+
 def histories_of(job):
-    """job ('pairs', a, [b...]) -> a [m] b ;  ('triples', a, b) -> a [m1] b [m2] c for c in core"""
+    """job ('pairs', a, [b...], quick) -> a [m] b ;  ('triples', a, b) -> a [m1] b [m2] c for c in core"""
     if job[0] == 'pairs':
         a = job[1]
         for b in job[2]:
-            for m in MODS6:
+            for m in pair_mods(a, b, job[3]):
                 yield (('s', a),) + ((('m', m),) if m else ()) + (('s', b),)
     else:
         a, b = job[1], job[2]
@@ -299,7 +306,7 @@ def make_jobs(quick):
         bs = [b for b in range(n) if (not quick) or a in core_ or b in core_]
         if not bs: continue
         for part in ((bs[:len(bs) // 2], bs[len(bs) // 2:]) if len(bs) > 40 else (bs,)):
-            if part: jobs.append(('pairs', a, part))
+            if part: jobs.append(('pairs', a, part, quick))
     if not quick:
         for a in P.CORE:
             for b in P.CORE: jobs.append(('triples', a, b))
@@ -420,7 +427,8 @@ def compute_cold(zyg, ctx, quick):
     n = len(P.POOL); core_ = set(P.CORE)
     want = []
     for i in range(n):
-        for ms in modseqs(1 if (quick or i not in core_) else 2): want.append((i, ms))
+        if quick and i not in core_: want += [(i, ())] + [(i, (m,)) for m in MODS4[1:]]
+        else: want += [(i, ms) for ms in modseqs(1 if quick else 2)]
     want = ctx.shuffled(want)
     hist = [[('m', m) for m in ms] + [('s', i)] for i, ms in want]
     for (i, ms), (res, tainted) in zip(want, zyg.map(hist)):
@@ -505,7 +513,7 @@ def run(ctx):
     ctx.cov['modifications'] = list(MODS6[1:])
     ctx.cov['distinct_results'] = len(results)
     ctx.cov['distinct_pristine_answers'] = distinct_cold
-    ctx.cov['bounds'] = ('ordered pairs with a core statement x 6 modifications' if ctx.quick else
+    ctx.cov['bounds'] = ('ordered pairs with a core statement x {none, assign, create, delete} (+ commit, rollback inside the core)' if ctx.quick else
                          'all ordered pairs over the pool x 6 modifications; all ordered triples over the core x 6 x 6 modifications')
     minh = 10000 if ctx.quick else 200000
     ctx.guard('histories executed', executed, minh)
@@ -533,8 +541,9 @@ def replay(ctx, case):
     zyg = Zygotes(1)
     try:
         ok = True
-        for key in ('steps', 'minimal_steps'):
-            steps = [tuple(s) for s in case[key]]
+        for key in ('history', 'minimal'):
+            # statements are recorded by name (pool indexes are not stable when the pool is edited)
+            steps = [('m', x[1:-1]) if x.startswith('<') else ('s', P.BYNAME[x]) for x in case[key]]
             res, tainted = zyg.run(steps)
             ref, _ = zyg.run([('m', m) for m in modseq_of(steps)] + [steps[-1]])
             print('history  :', ' ; '.join(names(steps)))
